@@ -829,6 +829,12 @@ class Parser:
             if len(args) == 1:
                 arg = args[0]
             else:
+                for item in args:
+                    if isinstance(item, nodes.Slice):
+                        self.fail(
+                            "a slice can not be combined with other subscript items",
+                            item.lineno,
+                        )
                 arg = nodes.Tuple(args, "load", lineno=token.lineno)
             return nodes.Getitem(node, arg, "load", lineno=token.lineno)
         self.fail("expected subscript expression", token.lineno)
